@@ -4,7 +4,12 @@ from operator import itemgetter
 from typing import TYPE_CHECKING, Deque, Dict, Iterator, List, Set, Tuple
 
 from comb_spec_searcher.class_db import ClassDB
-from comb_spec_searcher.strategies.rule import AbstractRule, Rule
+from comb_spec_searcher.strategies.rule import (
+    AbstractRule,
+    EquivalencePathRule,
+    EquivalenceRule,
+    Rule,
+)
 from comb_spec_searcher.tree_searcher import Node
 from comb_spec_searcher.typing import RuleKey
 
@@ -121,7 +126,19 @@ class SpecificationRuleExtractor:
 
     def rules(self) -> Iterator[AbstractRule]:
         for parent, children in self.rules_dict.items():
-            yield self._find_rule(parent, children)
+            rule = self._find_rule(parent, children)
+            if (
+                rule.is_equivalence()
+                and not isinstance(rule, (EquivalencePathRule, EquivalenceRule))
+                and len(rule.children) > 1
+            ):
+                # a one-way rule with one non-empty child and empty siblings comes
+                # straight from rule_to_strategy: hand out its equivalence form, as
+                # ForestRuleExtractor.rules does
+                assert isinstance(rule, Rule)
+                yield rule.to_equivalence_rule()
+            else:
+                yield rule
 
 
 class PartialSpecificationRuleExtractor(SpecificationRuleExtractor):
